@@ -715,6 +715,9 @@ def check(ctx):
     ctx.rule("R12", "segments arrive as sent: on both stacks the receive side hands a datagram on byte for byte (model socket / datagram_received callback, probed with content that begins and ends in whitespace and NUL bytes) - the awaitable client re-injects unwrapped BINARY content through the same callback, so a clean-up that is harmless for `<PACKT>` frames shortens a block segment ending in 0x20 / 0x0a and every later byte of the transfer lands at a lower offset, reported as success")
     from ..enginemodel import receive_paths_verbatim
     receive_paths_verbatim(ctx, repo, "R12", skip=("longest-update",))   # block segments are short: the buffer size is C05's clause
+    ctx.rule("R13", "a transfer that was abandoned does not block the next: the request lock held across a transfer is released on EVERY exit of the locked section - its __aexit__ awaits the asyncio lock's on every path, the exception path (a task cancelled while it waits for the rest of the chain) included; a lock left held makes every later transfer on the connection wait for ever: it neither succeeds nor fails (C06.R2's lock rule borrowed)")
+    from .c06 import request_lock_delegates as _rld1
+    _rld1(ctx.borrowed("R13", "C06"), repo, "R2")
     async_assembly(ctx, repo)
     # the completed assembler keeps its segment list until the engine's clean-up removes the handler: the engine must
     # not dispatch a second datagram before that (engine model, vlib/enginemodel.py)
